@@ -379,6 +379,13 @@ pub fn check(c: &PgCase) -> Verdict {
                     format!("recycle: {:?}", want_pool.timeouts.recycle),
                     format!("recycling_method: {:?}", want_method),
                 ] {
+                    // the Debug representation is the only window into the builder; its format is
+                    // not contractual, so a key that is not shown at all is not judged
+                    let key = format!("{}: ", want.split(": ").next().unwrap_or(""));
+                    if !dbg.contains(&key) {
+                        v.label("builder-debug-lacks-key");
+                        continue;
+                    }
                     if !dbg.contains(&want) {
                         v.fail("builder-section-lost", format!("builder() does not carry `{}`: {}", want, dbg));
                     }
@@ -409,7 +416,9 @@ pub fn check(c: &PgCase) -> Verdict {
         Ok(Err(CreatePoolError::Build(e))) => {
             v.label("create_pool:Build");
             v.nontrivial = true;
-            if expected_err.is_some() || !(any_timeout && rt.is_none()) {
+            // a Config that is invalid *and* sets timeouts without a runtime may be refused for
+            // either reason: the statement gives no precedence
+            if !(any_timeout && rt.is_none()) {
                 v.fail("create-pool-build-error", format!("create_pool() failed with Build({:?}) (timeouts {:?}, runtime {:?})", e, want_pool.timeouts, rt));
             }
         }
@@ -432,7 +441,9 @@ pub fn check(c: &PgCase) -> Verdict {
                     );
                 }
                 let dbg = format!("{:?}", pool.manager());
-                if !dbg.contains(&format!("recycling_method: {:?}", want_method)) {
+                if !dbg.contains("recycling_method: ") {
+                    v.label("manager-debug-lacks-recycling-method");
+                } else if !dbg.contains(&format!("recycling_method: {:?}", want_method)) {
                     v.fail("manager-section-lost", format!("manager {:?} does not show recycling method {:?}", dbg, want_method));
                 }
             }
